@@ -213,7 +213,15 @@ pub fn check_graph_c08(b: &Built, rec: &Recorder, c: &mut Counters, weighted_mod
 }
 
 pub fn c08_families(tier: &str) -> Vec<Family> {
-    let mut v = vec![];
+    let mut v = primed_small("w12", 2);
+    v.extend(route_small("w12", true));
+    v.extend(hist_small("w12", false));
+    v.push(fam(US, 3, "wtiny", &ORD_ONE));
+    v.push(fam(DS, 3, "wtiny", &ORD_ONE));
+    v.push(fam_primed(US, 3, "w12", &ORD_ONE));
+    if tier != "quick" {
+        v.push(fam_primed(DS, 3, "w12", &ORD_ONE));
+    }
     if tier == "quick" {
         for n in 0..=3 {
             for k in kinds_all() {
